@@ -35,7 +35,7 @@ def run(ctx):
                 ("exh4", "tree", dict(T, MAXN=4, MAXNC=1, SAMPLE=0)),
                 ("smp", "tree", dict(T, MAXN=5, MAXNC=2, SAMPLE=150)), ("smp3", "tree", dict(T, MAXN=5, MAXNC=4, SAMPLE=150)),
                 ("subq", "subq", dict(T, MAXN=5, MAXNC=3, SAMPLE=150, SUBQ="TRUE")),
-                ("subq4", "subq", dict(T, MAXN=4, MAXNC=1, SAMPLE=0, SUBQ="TRUE")),
+                ("subq4", "subq", dict(T, MAXN=4, MAXNC=2, SAMPLE=200, SUBQ="TRUE")),
                 ("star", "star", dict(T, MAXN=7, MAXNC=3, SAMPLE=60, STAR="TRUE"))]
 
     def one(job):
